@@ -228,3 +228,7 @@ Fixpoint dsafe_from (d : dworld) (gone gd : list path) (l : list op) : bool :=
       && dsafe_from (fst (dstep d o)) (gone_after (dw d) gone o) (gd_after (dw d) gd o) l'
   end.
 Definition dsafe (bs : nat) (l : list op) : bool := dsafe_from (init_dworld bs) [] [] l.
+
+(* plain-data rendering of the theorem's side condition for a one-host script *)
+Definition dsafe_enc (bs : nat) (l : list (nat * op)) : bool :=
+  forallb c07_op (host_ops 0 l) && dsafe bs (host_ops 0 l).
